@@ -107,6 +107,18 @@ def handleSym : Handler := fun st op args =>
       match symmetries st.basis p with
       | .ok rs => " ".intercalate (rs.map (fun (q, k) => s!"{k.val}:{fmtPos q}"))
       | .error e => fmtErr e)
+  | "symscfg", [_src, ptok] =>
+    some (st, withPos ptok fun p =>
+      let board := (Spec.abs p).squares.map (fun sq => sq.map Piece.code)
+      match Pos.fromSquares st.basis p.cfg board p.move with
+      | .error e => fmtErr e
+      | .ok q =>
+        match symmetries st.basis q with
+        | .error e => fmtErr e
+        | .ok rs =>
+          let oc (x : Pos) : String := let d := x.winDetails
+            fmtOutcome d.over d.winner (d.reason == .road) d.whiteFlats d.blackFlats
+          " | ".intercalate (oc q :: rs.map (fun (r, k) => s!"{k.val}:{oc r}")))
   | "ssyms", [ptok] =>
     some (st, withPos ptok fun p =>
       " ".intercalate ((Spec.symImages (Spec.abs p)).map (fun (s, k) => s!"{k.val}:{fmtState s}")))
